@@ -17,6 +17,9 @@ NPDT = {"float64": onp.float64, "float32": onp.float32, "float16": onp.float16, 
         "complex128": onp.complex128, "complex64": onp.complex64}
 
 
+REVERSE_DICTS = [False]      # build dict values with reversed key insertion order (same space, same vector)
+
+
 def build(sp, flat, pos=0):
     """(space tree, flat vector) -> real value; returns (value, next position)"""
     k = sp["k"]
@@ -41,7 +44,10 @@ def build(sp, flat, pos=0):
         return tuple(items), pos
     if k == "list":
         return list(items), pos
-    return dict(zip(sp["keys"], items)), pos
+    pairs = list(zip(sp["keys"], items))
+    if REVERSE_DICTS[0]:
+        pairs = pairs[::-1]
+    return dict(pairs), pos
 
 
 def flatten(sp, v):
@@ -134,7 +140,9 @@ def run(case):
     o = {"id": case["id"], "sp": sp, "x": case["x"], "y": case["y"], "z": case["z"], "a": case["a"], "b": case["b"], "err": ""}
     try:
         x, _ = build(sp, case["x"])
+        REVERSE_DICTS[0] = case["id"] % 2 == 1      # two vectors of one space whose dicts were filled in different orders
         y, _ = build(sp, case["y"])
+        REVERSE_DICTS[0] = False
         z, _ = build(sp, case["z"])
         snap = json.dumps(flatten(sp, x))
         vs = vspace(x)
